@@ -924,3 +924,8 @@ PROOF_MODULES = PROOF_MODULES + ['Compute.Lemmas.SrcLoops']
 PROOF_MODULES = PROOF_MODULES + [m for m in ['Compute.Lemmas.Rounding5', 'Compute.Props.Rounding5'] if m not in PROOF_MODULES]
 REQUIRED_THEOREMS = REQUIRED_THEOREMS + ['Cv.Rounding5.predictOne_error', 'Cv.Rounding5.arTerms_sum', 'Cv.Rounding5.difference_error']
 NOT_PROVED = list(NOT_PROVED) + ['the one-step forecast IS bounded by theorem in the standard model (Props/Rounding5): |predict_one - (c + sum phi_j (x_j - c))| <= gamma_(p+3) (|c| + sum |phi_j||x_j - c|), and difference is exact up to one rounding per entry']
+
+# --- deep theorems (Rounding6: end-to-end residual / backward-error bounds in the standard model, wired by the lead)
+PROOF_MODULES = PROOF_MODULES + [m for m in ['Compute.Lemmas.Rounding6', 'Compute.Props.Rounding6'] if m not in PROOF_MODULES]
+REQUIRED_THEOREMS = REQUIRED_THEOREMS + ['Cv.Rounding6.yuleWalker_residual', 'Cv.Rounding6.invertMatrix_residual']
+NOT_PROVED = list(NOT_PROVED) + ['the Yule-Walker solve IS bounded end to end as a residual of the Toeplitz system of the computed autocorrelations (Props/Rounding6 yuleWalker_residual: gamma_(3p+1) W Z + gamma_(p+1) |R| Z); its propagation to the coefficients (cond(R)) is oracle only']
